@@ -39,7 +39,6 @@ import (
 	exocoreapp "github.com/ExocoreNetwork/exocore/app"
 	"github.com/ExocoreNetwork/exocore/utils"
 	oraclekeeper "github.com/ExocoreNetwork/exocore/x/oracle/keeper"
-	"github.com/ExocoreNetwork/exocore/x/oracle/keeper/aggregator"
 	oraclecommon "github.com/ExocoreNetwork/exocore/x/oracle/keeper/common"
 	oracletypes "github.com/ExocoreNetwork/exocore/x/oracle/types"
 )
@@ -433,62 +432,148 @@ func (n *oracleNode) msgItems(items []*oracletypes.MsgItem) []jm {
 	return out
 }
 
-func (n *oracleNode) dumpAgc(d *aggregator.VDump) (rounds, aggs []jm, powers jm, total int64, isNil bool) {
+// validator id of a filter / report key.  Keys are strings today (consensus or account bech32, for the det-id sets
+// the account address followed by the source id); a struct key is accepted too: the fields are looked up by name
+// (a field holding a known validator string, a numeric field as the source id).
+func (n *oracleNode) keyVal(k interface{}) (v string, src int64) {
+	switch t := k.(type) {
+	case string:
+		return n.vid(t), 1
+	case rnode:
+		v, src = "?", 1
+		for _, x := range t {
+			if sv, ok := x.(string); ok {
+				if id, known := n.ids[sv]; known {
+					v = id
+				}
+			} else {
+				src = rint(x)
+			}
+		}
+		return v, src
+	}
+	return "?" + renderKey(k), 1
+}
+
+func feedersOfTree(p interface{}) jm {
+	out := jm{}
+	for i, f := range rlist(rget(p, "TokenFeeders")) {
+		if i == 0 || f == nil {
+			continue
+		}
+		out[fid(uint64(i))] = jm{"tok": fmt.Sprintf("t%d", rint(rget(f, "TokenID"))), "start": rint(rget(f, "StartBaseBlock")),
+			"iv": rint(rget(f, "Interval")), "sr": rint(rget(f, "StartRoundID")), "end": rint(rget(f, "EndBlock"))}
+	}
+	return out
+}
+
+// projection of the aggregator context from the reflected tree (every piece looked up by name; an absent piece
+// yields the empty value, which the strict lane then reports as drift)
+func (n *oracleNode) dumpAgc(d interface{}) (rounds, aggs []jm, powers jm, total int64, isNil bool) {
 	rounds, aggs, powers = []jm{}, []jm{}, jm{}
-	if d == nil || d.Nil {
+	if d == nil {
 		return rounds, aggs, powers, 0, true
 	}
-	for _, p := range d.Powers {
-		powers[n.vid(p.Validator)] = atoi(p.Power)
+	for _, kv := range rmap(rget(d, "validatorsPower")) {
+		powers[n.vid(rstr(kv.K))] = rint(kv.V)
 	}
-	for _, r := range d.Rounds {
-		rounds = append(rounds, jm{"f": fid(r.Feeder), "base": r.Base, "next": r.Next, "status": r.Status})
+	total = rint(rget(d, "totalPower"))
+	for _, kv := range rmap(rget(d, "rounds")) {
+		rounds = append(rounds, jm{"f": fid(uint64(rint(kv.K))), "base": rint(rget(kv.V, "basedBlock")), "next": rint(rget(kv.V, "nextRoundID")), "status": rint(rget(kv.V, "status"))})
 	}
-	for _, w := range d.Workers {
-		a := jm{"f": fid(w.Feeder), "sealed": w.Sealed, "price": opt(w.Sealed, w.Price), "live": w.Live}
+	for _, kv := range rmap(rget(d, "aggregators")) {
+		w := kv.V
+		if w == nil {
+			continue
+		}
+		sealed := rbool(rget(w, "sealed"))
+		f, c, ag := rget(w, "f"), rget(w, "c"), rget(w, "a")
+		live := f != nil && c != nil && ag != nil
+		a := jm{"f": fid(uint64(rint(kv.K))), "sealed": sealed, "price": opt(sealed, rstr(rget(w, "price"))), "live": live}
 		fN, fS, calc, reports := []jm{}, []jm{}, []jm{}, []jm{}
 		ds := ""
-		for _, s := range w.Nonces {
-			fN = append(fN, jm{"v": n.vid(s.Key), "s": append([]int32{}, s.Set...), "size": s.Size})
-		}
-		for _, s := range w.Sources {
-			fS = append(fS, jm{"v": n.vid(s.Key), "s": append([]string{}, s.Set...), "size": s.Size})
-		}
-		nsrc := len(w.Calc)
-		for _, cs := range w.Calc {
-			for _, r := range cs.Rounds {
-				pp := []jm{}
-				for _, x := range r.Prices {
-					pp = append(pp, jm{"p": x.Price, "w": atoi(x.Power)})
+		nsrc := 0
+		if live {
+			for _, e := range rmap(rget(f, "validatorNonce")) {
+				v, _ := n.keyVal(e.K)
+				set := []int64{}
+				for _, x := range rlist(rget(e.V, "slice")) {
+					set = append(set, rint(x))
 				}
-				calc = append(calc, jm{"d": r.DetID, "pp": pp, "conf": opt(r.Confirmed, r.Price), "src": cs.Source})
+				fN = append(fN, jm{"v": v, "s": set, "size": rint(rget(e.V, "size"))})
 			}
-		}
-		for _, r := range w.Reports {
-			rp := jm{"v": n.vid(r.Validator), "price": opt(r.HasPrice, r.Price), "w": atoi(r.Power), "has": false, "sp": opt(false, ""), "sd": "", "nsrc": len(r.Prices)}
-			for _, sp := range r.Prices {
-				if sp.Source == 1 {
-					rp["has"] = true
-					rp["sp"] = opt(sp.HasPrice, sp.Price)
-					rp["sd"] = sp.DetID
+			for _, e := range rmap(rget(f, "validatorSource")) {
+				v, src := n.keyVal(e.K)
+				if src != 1 {
+					v = fmt.Sprintf("%s#%d", v, src)
+				}
+				set := []string{}
+				for _, x := range rlist(rget(e.V, "slice")) {
+					set = append(set, rstr(x))
+				}
+				fS = append(fS, jm{"v": v, "s": set, "size": rint(rget(e.V, "size"))})
+			}
+			srcs := rmap(rget(c, "deterministicSource"))
+			nsrc = len(srcs)
+			for _, cs := range srcs {
+				for _, r := range rlist(rget(cs.V, "roundPricesList")) {
+					pp := []jm{}
+					for _, x := range rlist(rget(r, "prices")) {
+						pp = append(pp, jm{"p": rstr(rget(x, "price")), "w": rint(rget(x, "power"))})
+					}
+					cp := rget(r, "price")
+					calc = append(calc, jm{"d": rstr(rget(r, "detID")), "pp": pp, "conf": opt(cp != nil, rstr(cp)), "src": rint(cs.K)})
 				}
 			}
-			reports = append(reports, rp)
-		}
-		for _, x := range w.Ds {
-			if x.Source == 1 {
-				ds = x.DetID
+			for _, r := range rlist(rget(ag, "reports")) {
+				rpv := rget(r, "price")
+				prices := rmap(rget(r, "prices"))
+				rp := jm{"v": n.vid(rstr(rget(r, "validator"))), "price": opt(rpv != nil, rstr(rpv)), "w": rint(rget(r, "power")), "has": false, "sp": opt(false, ""), "sd": "", "nsrc": len(prices)}
+				for _, sp := range prices {
+					if rint(sp.K) == 1 && sp.V != nil {
+						spv := rget(sp.V, "price")
+						rp["has"] = true
+						rp["sp"] = opt(spv != nil, rstr(spv))
+						rp["sd"] = rstr(rget(sp.V, "detRoundID"))
+					}
+				}
+				reports = append(reports, rp)
+			}
+			for _, x := range rmap(rget(ag, "dsPrices")) {
+				if rint(x.K) == 1 {
+					ds = rstr(x.V)
+				}
 			}
 		}
 		a["fN"], a["fS"], a["calc"], a["reports"], a["ds"] = fN, fS, calc, reports, ds
-		a["rpower"] = atoi(w.ReportPower)
-		a["final"] = opt(w.HasFinal, w.Final)
+		fin := rget(ag, "finalPrice")
+		a["rpower"] = rint(rget(ag, "reportPower"))
+		a["final"] = opt(live && fin != nil, rstr(fin))
 		a["nsrc"] = nsrc
-		a["nvals"] = w.CalcVals
-		a["total"] = atoi(w.CalcTotal)
+		a["nvals"] = rint(rget(c, "validatorLength"))
+		a["total"] = rint(rget(c, "totalPower"))
 		aggs = append(aggs, a)
 	}
-	return rounds, aggs, powers, atoi(d.Total), false
+	return rounds, aggs, powers, total, false
+}
+
+// cached messages (cache.msg: *[]*ItemM) from the reflected tree
+func (n *oracleNode) cacheMsgItems(l interface{}) []jm {
+	out := []jm{}
+	for _, m := range rlist(l) {
+		if m == nil {
+			continue
+		}
+		ps := []jm{}
+		srcs := rlist(rget(m, "PSources"))
+		for _, s := range srcs {
+			for _, p := range rlist(rget(s, "Prices")) {
+				ps = append(ps, jm{"d": rstr(rget(p, "DetID")), "p": rstr(rget(p, "Price"))})
+			}
+		}
+		out = append(out, jm{"f": fid(uint64(rint(rget(m, "FeederID")))), "v": n.vid(rstr(rget(m, "Validator"))), "ps": ps, "ns": len(srcs)})
+	}
+	return out
 }
 
 // feeders of a params value as the model's fd function: {"f1": {tok, start, iv, sr, end}, ...}
@@ -559,36 +644,20 @@ func (n *oracleNode) project() jm {
 		st["vub"] = 0
 	}
 	// process-local (hook H1)
-	mem := oraclekeeper.VerifDump()
-	rounds, aggs, powers, total, isNil := n.dumpAgc(mem.Agc)
+	roots := oraclekeeper.VerifRoots()
+	agcT, csT := rwalk(roots["agc"]), rwalk(roots["cs"])
+	rounds, aggs, powers, total, isNil := n.dumpAgc(agcT)
 	st["rounds"], st["aggs"], st["powers"], st["total"], st["agcNil"] = rounds, aggs, powers, total, isNil
-	afd := jm{}
-	if mem.Agc != nil {
-		for _, f := range mem.Agc.Feeders {
-			afd[fid(f.ID)] = jm{"tok": fmt.Sprintf("t%d", f.TokenID), "start": f.Start, "iv": f.Interval, "sr": f.StartRd, "end": f.End}
-		}
-	}
-	st["afd"] = afd
-	st["cfd"] = jm{}
-	if mem.Cs != nil && mem.Cs.Params != nil {
-		st["cfd"] = fdOf(mem.Cs.Params.TokenFeeders)
-	}
-	cm := []*oracletypes.MsgItem{}
-	if mem.Cs != nil {
-		for i := range mem.Cs.Msgs {
-			cm = append(cm, &mem.Cs.Msgs[i])
-		}
-		st["cvu"], st["cpu"] = mem.Cs.ValidatorsUpdate, mem.Cs.ParamsUpdate
-	} else {
-		st["cvu"], st["cpu"] = false, false
-	}
-	st["cmsgs"] = n.msgItems(cm)
+	st["afd"] = feedersOfTree(rget(agcT, "params"))
+	st["cfd"] = feedersOfTree(rget(csT, "params", "params"))
+	st["cvu"], st["cpu"] = rbool(rget(csT, "validators", "update")), rbool(rget(csT, "params", "update"))
+	st["cmsgs"] = n.cacheMsgItems(rget(csT, "msg"))
 	upd := []string{}
-	for _, u := range mem.Updated {
-		upd = append(upd, "f"+u)
+	for _, u := range rlist(rwalk(roots["updatedFeederIDs"])) {
+		upd = append(upd, "f"+rstr(u))
 	}
 	st["upd"] = upd
-	st["chk"] = mem.AgcCheckTx == nil || mem.AgcCheckTx.Nil
+	st["chk"] = rwalk(roots["agcCheckTx"]) == nil
 	st["apphash"] = hexOf(n.app.LastCommitID().Hash)
 	return st
 }
